@@ -268,7 +268,6 @@ func (c *Ctx) searchReadsByIDAlone(rule string) {
 	R.Min(rule, "statements of GetMessageDateAndSize", n, 1)
 }
 
-
 // searchAnswersComeFromSearch (R15.8): the numbers of a SEARCH response are the ones Mailbox.Search produced.
 func (c *Ctx) searchAnswersComeFromSearch(rule string) {
 	P, R := c.P, c.R
@@ -282,38 +281,61 @@ func (c *Ctx) searchAnswersComeFromSearch(rule string) {
 			}
 			n++
 			bad, any := "", false
-			engine.Backward(cs.Common().Args[0], engine.FlowOpts{Loads: true, AppendBase: true, AppendElems: true}, func(x ssa.Value) bool {
-				if bad != "" {
-					return false
-				}
-				switch t := x.(type) {
-				case *ssa.Extract:
-					if call, ok := t.Tuple.(*ssa.Call); ok {
-						if g := call.Call.StaticCallee(); g != nil && engine.ShortName(g) == "Search" && engine.RecvNamed(g) != nil && engine.RecvNamed(g).Obj().Name() == "Mailbox" && t.Index == 0 {
-							any = true
-							return false
-						}
-					}
-					bad = "a result of " + t.Tuple.String()
-					return false
-				case *ssa.Const:
-					if t.IsNil() {
+			var judge func(v ssa.Value, depth int)
+			judge = func(v ssa.Value, depth int) {
+				engine.Backward(v, engine.FlowOpts{Loads: true, AppendBase: true, AppendElems: true}, func(x ssa.Value) bool {
+					if bad != "" {
 						return false
 					}
-					bad = "constant " + t.String()
-					return false
-				case *ssa.MakeSlice, *ssa.Alloc, *ssa.Parameter:
-					bad = x.String() + " at " + P.Pos(x.Pos())
-					return false
-				case *ssa.Call:
-					if _, isApp := engine.IsBuiltinCall(t, "append"); isApp {
-						return true
+					switch t := x.(type) {
+					case *ssa.Extract:
+						if call, ok := t.Tuple.(*ssa.Call); ok {
+							if g := call.Call.StaticCallee(); g != nil && engine.ShortName(g) == "Search" && engine.RecvNamed(g) != nil && engine.RecvNamed(g).Obj().Name() == "Mailbox" && t.Index == 0 {
+								any = true
+								return false
+							}
+						}
+						bad = "a result of " + t.Tuple.String()
+						return false
+					case *ssa.Const:
+						if t.IsNil() {
+							return false
+						}
+						bad = "constant " + t.String()
+						return false
+					case *ssa.Parameter:
+						// the numbers handed to a helper of the session package: what its call sites pass
+						h := t.Parent()
+						if depth > 0 && h.Parent() == nil && h.Object() != nil && !h.Object().Exported() {
+							ix := engine.ParamIndex(h, t)
+							callers := P.CallersOf(h)
+							if ix >= 0 && len(callers) > 0 {
+								for _, site := range callers {
+									if site.Common().StaticCallee() != h || ix >= len(site.Common().Args) {
+										bad = "parameter " + t.Name() + " of " + c.name(h) + " (a call site that cannot be followed)"
+										return false
+									}
+									judge(site.Common().Args[ix], depth-1)
+								}
+								return false
+							}
+						}
+						bad = x.String() + " at " + P.Pos(x.Pos())
+						return false
+					case *ssa.MakeSlice, *ssa.Alloc:
+						bad = x.String() + " at " + P.Pos(x.Pos())
+						return false
+					case *ssa.Call:
+						if _, isApp := engine.IsBuiltinCall(t, "append"); isApp {
+							return true
+						}
+						bad = "the result of " + t.Call.Value.String() + " at " + P.Pos(t.Pos())
+						return false
 					}
-					bad = "the result of " + t.Call.Value.String() + " at " + P.Pos(t.Pos())
-					return false
-				}
-				return true
-			})
+					return true
+				})
+			}
+			judge(cs.Common().Args[0], 2)
 			R.Check(bad == "" && any, rule, c.name(f)+"|response.Search numbers", P.Pos(cs.Pos()), "the numbers are the first result of Mailbox.Search", "the SEARCH response is given numbers that do not (only) come from Mailbox.Search ("+bad+"): they are not mapped to UIDs for UID SEARCH / to sequence numbers for SEARCH")
 		}
 	}
